@@ -84,9 +84,16 @@ func (p *recProc) ProcessCoinbaseTx(ctx context.Context, hash bitcoin.Hash32, tx
 type recStore struct {
 	blocks map[bitcoin.Hash32]bool
 	order  []bitcoin.Hash32
+	// failFetchAt > 0: the failFetchAt-th FetchBlockTxIDs call fails once (a transient storage error)
+	failFetchAt int
+	fetches     int
 }
 
 func (s *recStore) FetchBlockTxIDs(ctx context.Context, h bitcoin.Hash32) ([]bitcoin.Hash32, bool, error) {
+	s.fetches++
+	if s.failFetchAt > 0 && s.fetches == s.failFetchAt {
+		return nil, false, errors.New("injected transient storage error")
+	}
 	return nil, s.blocks[h], nil
 }
 func (s *recStore) AppendBlockTxIDs(ctx context.Context, h bitcoin.Hash32, ids []bitcoin.Hash32) error {
